@@ -10,7 +10,7 @@ import ast
 from typing import Dict, List, Set
 
 from ..core import Collector, guarded, norm, Unrecognised
-from ..pyindex import walk_no_nested, FuncInfo
+from ..pyindex import walk_no_nested, FuncInfo, access_path
 from .common import purity_obligations, get_eff
 
 EXPLANATION = (
@@ -137,3 +137,40 @@ def run(ctx, col: Collector):
                 col.check(bool(rets), 'C10-views', f'{cls}.{name}:returns', 'getter returns a computed value',
                           f'{cls}.{name} getter has no return', node=p.node, file=p.file)
     guarded(col, 'C10-views', 'computed-views', views)
+
+    def stale_indexes():
+        """A rendering is a function of the current object graph: nothing on the render closure may consult an index that is keyed by attribute values
+        taken when an element was added (such a key is not updated by an in-place rename, see C09-derived-index)."""
+        from .common import get_cg, render_entries
+        idx = ctx.idx
+        db = idx.cls('pydbml.database', 'Database')
+        derived = {}
+        for m in db.methods.values():
+            if not isinstance(m.node, ast.FunctionDef):
+                continue
+            params = {a.arg for a in m.node.args.args[1:]}
+            for n in walk_no_nested(m.node):
+                if isinstance(n, ast.Assign) and isinstance(n.targets[0], ast.Subscript):
+                    t = n.targets[0]
+                    ap = access_path(t.value)
+                    if ap and ap.startswith('self.') and any(isinstance(x, ast.Attribute) and isinstance(x.value, ast.Name) and x.value.id in params
+                                                             for x in ast.walk(t.slice)):
+                        derived.setdefault(ap[5:], norm(t.slice))
+        col.floor('C10-views', 'indexes of Database keyed by element attributes', len(derived), 1)
+        cg = get_cg(ctx)
+        closure = cg.closure(e.id for e in render_entries(ctx))
+        nread = 0
+        for fid in sorted(closure):
+            fi = idx.funcs[fid]
+            if fi.cls == db.id and fi.qualname.split('.')[-1] in ('__getitem__', '__contains__'):
+                continue
+            for x in ast.walk(fi.node):
+                if isinstance(x, ast.Attribute) and x.attr in derived and isinstance(x.ctx, ast.Load):
+                    nread += 1
+                    col.bad('C10-views', f'{fi.qualname}:reads-index:{x.attr}', f'{fi.qualname} (reachable from a rendering entry point) consults Database.{x.attr}, which is '
+                            f'keyed by `{derived[x.attr]}` as it was when the element was added and is not re-keyed by in-place edits: after a rename the rendering '
+                            f'differs from that of a freshly built model', node=x, file=fi.file)
+        if nread == 0:
+            col.ok('C10-views', 'render-closure:no-stale-index', f'none of the {len(closure)} render-reachable functions reads {sorted(derived)}', node=db.node,
+                   file='pydbml/database.py')
+    guarded(col, 'C10-views', 'stale-indexes', stale_indexes)
